@@ -68,8 +68,19 @@ def gen(rng, n, tier):
             elif c == "arr" and rng.random() < 0.5: c = "arr:normalize_bins"
             if o[0] in ("new", "empty", "bare", "add", "copy", "sub", "subf"): seen += 1
             calls.append(c)
-        yield [["bucket", "len%d/%s%s" % (len(ops), "adaptive/" if adaptive else "", "+".join(sorted(set(o[0] for o in ops))))], ["ops", ops], ["eps", Fr(0)],
-               ["adaptive", "T" if adaptive else "F"], ["calls", calls]]
+        scale = Fr(1)
+        if not adaptive and rng.random() < 0.12:
+            # the same programme at the scale of 2^-30 (about a nanometre): every moment scales exactly; variances are far below 1e-16
+            scale = Fr(1, 2 ** 30)
+            def sc(o):
+                if o[0] == "new": return ["new", [[v * scale, w] for v, w in o[1]], o[2]]
+                if o[0] == "fill": return ["fill", o[1], o[2] * scale, o[3]]
+                if o[0] == "fill_n": return ["fill_n", o[1], [[v * scale, w] for v, w in o[2]], o[3]]
+                return o
+            ops = [sc(o) for o in ops]
+            calls = [c.replace("fill:int8", "fill") for c in calls]
+        yield [["bucket", "len%d/%s%s%s" % (len(ops), "adaptive/" if adaptive else "", "tiny/" if scale != 1 else "", "+".join(sorted(set(o[0] for o in ops))))], ["ops", ops], ["eps", Fr(0)],
+               ["adaptive", "T" if adaptive else "F"], ["calls", calls], ["scale", scale]]
 
 def impl(case):
     import numpy as np, warnings, physt
@@ -77,7 +88,7 @@ def impl(case):
     from physt.binnings import NumpyBinning
     from physt.config import config
     d = sx.rec(case)
-    edges = np.array([float(e) for e in EDGES])
+    edges = np.array([float(e * d.get("scale", 1)) for e in EDGES])
     def binning(): return NumpyBinning(edges)
     env = []; out = []
     def arrs(data, wt):
